@@ -73,7 +73,7 @@ def bounded(tier, seed):
     failures, evals, nontrivial, samples = [], 0, 0, []
     for n in range(1, L + 1):
         for hist in itertools.product(steps, repeat=n):
-            if n == 4 and (hash(hist) % 7):     # thorough: a 1/7 slice of the 4-step histories (4.1M total)
+            if n == 4 and (__import__("zlib").crc32(repr(hist).encode()) % 7):     # thorough: a 1/7 slice of the 4-step histories (4.1M total)
                 continue
             evals += 1
             bad = run_history(hist)
